@@ -44,12 +44,16 @@ void abort(void) {
 }
 
 /* Executable models of the allocator entry points and of the error slot, equivalent to the contracts in
- * contracts/allocator.h and contracts/common.h (acquire: size > 0, never fails, fresh block of exactly that size with
- * arbitrary contents; release: a block that is still allocated, or NULL).  The units of mode "proof" replace the calls
+ * contracts/allocator.h and contracts/common.h (acquire: size > 0, never fails, fresh block with arbitrary contents;
+ * release: a block that is still allocated, or NULL).  The units of mode "proof" replace the calls
  * by those contracts instead. */
+#define PQ_ALLOC_BYTES (2 * PQ_CAPMAX * ISZ) /* largest request a queue within the bound can make (storage doubles once) */
 void *aws_mem_acquire(struct aws_allocator *allocator, size_t size) {
     __CPROVER_assert(allocator != NULL && size > 0, "aws_mem_acquire: precondition of the allocator contract");
-    void *p = malloc(size);
+    __CPROVER_assert(size <= PQ_ALLOC_BYTES, "aws_mem_acquire: request within what a queue of this bound can need");
+    /* blocks of constant size (a block of symbolic size makes the growing units run out of memory); consequence: a write
+     * beyond the requested size but inside the block is not flagged here - growth of the array list is C09's subject */
+    void *p = malloc(PQ_ALLOC_BYTES);
     __CPROVER_assume(p != NULL);
     return p;
 }
@@ -73,8 +77,9 @@ int aws_last_error(void) {
         g_out = nondet_size_t(); g_out_b = nondet_u8(); g_moved = nondet_bool(); \
         g0_len = nondet_size_t(); g0_cur = nondet_size_t(); g0_bpcur = nondet_size_t(); g0_idx = nondet_size_t(); \
         g0_data = nondet_ptr(); g0_bpdata = nondet_ptr(); g0_alloc = nondet_ptr(); \
-        g_last_error = nondet_int(); g_raise_count = nondet_int(); __CPROVER_havoc_object(g_nodes); } while (0)
+        g_last_error = nondet_int(); g_raise_count = nondet_int(); g_phase_post = false; __CPROVER_havoc_object(g_nodes); } while (0)
 #define PQ_ASSUME(name, x) __CPROVER_assume(x);
+#define PQ_CALLED() (g_phase_post = true) /* VERIF_PQ_HANDLES_APPEAR: from here on PQ_BPA reads the real handle array */
 #define PQ_ASSERT(name, x) __CPROVER_assert(x, name);
 #define PQ_SKIP(name, x)
 
@@ -182,8 +187,13 @@ static void hb_sift_either(enum pq_mode m, struct aws_priority_queue *q) {
     PQ_C_sift_either(PQ_SKIP, PQ_ASSERT, q, index)
     hb_a = index;
 }
+#if VERIF_PQ_N >= 7
+#    define CAN_WENT_DOWN else if (g_ki == hb_a && g_pos > hb_a) CANARY("inner, went down");
+#else
+#    define CAN_WENT_DOWN
+#endif
 #define CAN_SIFT_EITHER if (hb_a == 0) CANARY("root"); else if (g_ki == hb_a && g_pos < hb_a) CANARY("inner, went up"); \
-    else if (g_ki == hb_a && g_pos > hb_a) CANARY("inner, went down"); else CANARY("inner");
+    CAN_WENT_DOWN else CANARY("inner");
 void h_sift_either_live(void) { Q; hb_sift_either(PQ_LIVE, &q); CAN_SIFT_EITHER }
 void h_sift_either_plain(void) { Q; hb_sift_either(PQ_PLAIN, &q); CAN_SIFT_EITHER }
 
@@ -249,22 +259,32 @@ static int hb_push_ref(enum pq_mode m, struct aws_priority_queue *q) {
     uint8_t in[ISZ]; size_t h = nondet_size_t(); int r;
     PQ_GHOSTS(); pq_build(q, m);
     struct aws_priority_queue_node *bp = h < PQK ? &g_nodes[h] : NULL;
+#if defined(VERIF_PQ_NO_HANDLES)
+    __CPROVER_assume(bp == NULL || q->container.alloc == NULL); /* the handle array stays absent: no handle, or a static queue (refused) */
+#elif defined(VERIF_PQ_HANDLES_APPEAR)
+    __CPROVER_assume(bp != NULL && q->container.alloc != NULL); /* the call creates the handle array */
+#endif
     PQ_C_push(PQ_ASSUME, PQ_SKIP, q, in, bp, r)
     r = aws_priority_queue_push_ref(q, in, bp);
+    PQ_CALLED();
     PQ_C_push(PQ_SKIP, PQ_ASSERT, q, in, bp, r)
     hb_bp = bp;
     return r;
 }
 void h_push_ref_live(void) { Q; int r = hb_push_ref(PQ_LIVE, &q);
     if (r != 0) return;
-    if (hb_bp && PQ_FULL0) CANARY("handle, storage grew"); else if (hb_bp && g_ki == g0_len && g_pos == 0 && g0_len > 2) CANARY("handle, pushed element went to the root");
+    if (hb_bp && PQ_FULL0) CANARY("handle, storage grew"); else if (hb_bp && g_ki == g0_len && g_pos == 0 && g0_len >= 1) CANARY("handle, pushed element went to the root");
     else if (hb_bp) CANARY("handle"); else CANARY("no handle, handle array live"); }
+/* queue without handle array: (a) no handle / static queue: stays without (VERIF_PQ_NO_HANDLES); (b) first handle on a
+ * dynamic queue: the array is created (VERIF_PQ_HANDLES_APPEAR) */
 void h_push_ref_plain(void) { Q; int r = hb_push_ref(PQ_PLAIN, &q);
-    if (r == 0) { if (hb_bp && g0_len > 0) CANARY("first handle arrives in a non-empty queue"); else if (hb_bp) CANARY("first handle, empty queue");
-                  else if (PQ_FULL0) CANARY("no handle, storage grew"); else CANARY("no handle"); }
+    if (r == 0) { if (PQ_FULL0) CANARY("no handle, storage grew"); else CANARY("no handle"); }
     else if (PQ_FULL0) CANARY("full static queue refused"); else CANARY("static queue refused a handle"); }
-void h_push_ref_nost(void) { Q; int r = hb_push_ref(PQ_NOST, &q);
-    if (r == 0) { if (hb_bp) CANARY("first element with handle"); else CANARY("first element"); } }
+void h_push_ref_nost(void) { Q; int r = hb_push_ref(PQ_NOST, &q); if (r == 0) CANARY("first element"); }
+void h_push_ref_first_plain(void) { Q; int r = hb_push_ref(PQ_PLAIN, &q);
+    if (r == 0) { if (g0_len > 1 && g_ki < g0_len) CANARY("first handle arrives in a queue that holds elements"); else if (g0_len == 0) CANARY("first handle, empty queue");
+                  else CANARY("first handle"); } }
+void h_push_ref_first_nost(void) { Q; int r = hb_push_ref(PQ_NOST, &q); if (r == 0) CANARY("first element with handle"); }
 
 static int hb_push(enum pq_mode m, struct aws_priority_queue *q) {
     uint8_t in[ISZ]; int r;
